@@ -9,7 +9,7 @@
 (* TABLE (json):                                                           *)
 (*   valid[i]  1 / 0   text i parses as a Value                            *)
 (*   hash[i]   class number of recon_hash(text i)   (0 = the hasher panicked) *)
-(*   mvalid[i], mnf[i], mcf[i], mhev[i]   M: expected validity, normal form class, coarse form class, hash event class *)
+(*   mvalid[i], mnf[i], msv[i], mhev[i]   M: expected validity, normal form class, classes of the shifted forms, hash event class *)
 (*   rows[r] = <<a, b, cmp, veq>>   cmp = compare_recon_values(a, b) (1/0, 9 = panic)        *)
 (*                                  veq = parse(a) == parse(b) (1/0, 2 = not both valid)     *)
 (*   chunk    rows are evaluated in chunks of this many (one initial state per chunk)        *)
@@ -31,7 +31,11 @@ HashEq(r) == T.hash[A(r)] = T.hash[B(r)]
 \* M
 MBothValid(r) == T.mvalid[A(r)] = 1 /\ T.mvalid[B(r)] = 1
 MVeq(r) == IF MBothValid(r) THEN (IF T.mnf[A(r)] = T.mnf[B(r)] THEN 1 ELSE 0) ELSE 2
-MCmp(r) == IF MBothValid(r) THEN (IF T.mcf[A(r)] = T.mcf[B(r)] THEN 1 ELSE 0) ELSE (IF A(r) = B(r) THEN 1 ELSE 0)
+InSeq(x, s) == \E i \in 1..Len(s) : s[i] = x
+\* the comparator: equal normal forms, or one is a "left shift" of the other (ReconCompare!LeftShifts)
+MCmp(r) == IF MBothValid(r)
+             THEN (IF T.mnf[A(r)] = T.mnf[B(r)] \/ InSeq(T.mnf[B(r)], T.msv[A(r)]) \/ InSeq(T.mnf[A(r)], T.msv[B(r)]) THEN 1 ELSE 0)
+             ELSE (IF A(r) = B(r) THEN 1 ELSE 0)
 MHashEq(r) == T.mhev[A(r)] = T.mhev[B(r)]
 
 -----------------------------------------------------------------------------
